@@ -257,6 +257,17 @@ pub fn gen_script(rng: &mut Rng, len: usize) -> Vec<String> {
                 next += 1;
                 let kind = *rng.pick(&["query", "query", "view", "prepared", "one", "one"]).unwrap();
                 out.push(format!("gnew {} kind={} m={} e={}", name, kind, rng.below(NMENU), rng.below(8)));
+                if kind == "one" && rng.chance(35) {
+                    // scenario: a single-entity query that already yielded is narrowed, used again and dropped
+                    out.push(format!("gact {} get", name));
+                    out.push(format!("gact {} {}", name, if rng.chance(50) { "with" } else { "without" }));
+                    if rng.chance(50) {
+                        out.push(format!("gact {} get", name));
+                    }
+                    if rng.chance(70) {
+                        out.push(format!("gact {} drop", name));
+                    }
+                }
                 names.push(name);
             }
             1 => {
